@@ -91,7 +91,7 @@ impl IdLayer {
     pub open spec fn same_but(&self, o: IdLayer, f: int) -> bool {
         (f == 0 || self.s_uuid() == o.s_uuid()) && (f == 1 || self.d_uuid() == o.d_uuid()) && (f == 2 || self.ts_max() == o.ts_max()) && (f == 3 || self.key_handles() == o.key_handles()) && (f == 4 || self.raw() == o.raw())
     }
-    #[verifier::external_body] pub fn get_identry(&mut self, l: &IdList) -> (r: Result<Vec<KvxStoredEntry>, OperationError>) ensures *final(self) == *old(self) { unimplemented!() }
+    #[verifier::external_body] pub fn get_identry(&mut self, l: &IdList) -> (r: Result<std::vec::Vec<KvxStoredEntry>, OperationError>) ensures *final(self) == *old(self) { unimplemented!() }
     #[verifier::external_body] pub fn write_db_s_uuid(&mut self, u: Uuid) -> (r: Result<(), OperationError>) ensures final(self).same_but(*old(self), 0), r is Ok ==> final(self).s_uuid() == Some(u) { unimplemented!() }
     #[verifier::external_body] pub fn write_db_d_uuid(&mut self, u: Uuid) -> (r: Result<(), OperationError>) ensures final(self).same_but(*old(self), 1), r is Ok ==> final(self).d_uuid() == Some(u) { unimplemented!() }
     #[verifier::external_body] pub fn set_db_ts_max(&mut self, t: Duration) -> (r: Result<(), OperationError>) ensures final(self).same_but(*old(self), 2), r is Ok ==> final(self).ts_max() == Some(t) { unimplemented!() }
